@@ -12,6 +12,17 @@ TRUSTED_BASE = [
 ]
 
 CHECKS = {
+    "C06": {
+        "module": "Vanguard.Props.C06",
+        "namespace": "Vanguard.C06",
+        "streams": ["route", "escape"],
+        "partial": "",
+        "assumptions": [
+            "route_match_spec assumes CapturesInRange (variable ranges lie inside their template); the parser establishes it, "
+            "the correspondence validates it (a slice out of range would be a panic result)",
+            "net/url parsing of the request target is an input of the model (URL.Path / EscapedPath as Go computed them)",
+        ],
+    },
     "C12": {
         "module": "Vanguard.Props.C12",
         "namespace": "Vanguard.C12",
